@@ -120,10 +120,16 @@ package virtual
 //@   pure
 //@ stub (pkg/filesystem/virtual.ComponentNormalizer).Normalize
 //@   pure
+// leaflinks(l): links this call added to (Link that succeeded) minus links it
+// gave back (Unlink) on leaf l. Leaves are separate objects: linking or
+// unlinking one does not modify directory contents.
+//@ ghost map leaflinks(ref) int zero
 //@ stub (pkg/filesystem/virtual.LinkableLeaf).Unlink
-//@   pure -- leaves are separate objects: unlinking one does not modify directory contents
+//@   modifies leaflinks[arg0]
+//@   ensures leaflinks(arg0) == old(leaflinks(arg0)) - 1
 //@ stub (pkg/filesystem/virtual.LinkableLeaf).Link
-//@   pure
+//@   modifies leaflinks[arg0]
+//@   ensures leaflinks(arg0) == old(leaflinks(arg0)) + ite(r0 == StatusOK, 1, 0)
 //@ stub (pkg/filesystem/virtual.NamedAttributes).VirtualGetAttributes
 //@   modifies all(arg2)
 
@@ -143,7 +149,7 @@ package virtual
 //@   loop 0 invariant (forall c ref :: c != &i.contents ==> touches(c) == old(touches(c))) && touches(&i.contents) >= old(touches(&i.contents)) && i == old(i)
 //@   loop 0 invariant forall d *inMemoryDirectoryContents :: d != &i.contents ==> d.changeID == old(d.changeID) && d.lastDataModificationTime == old(d.lastDataModificationTime)
 //@   modifies touches[&i.contents], clocknow, i.contents.isDeleted, i.contents.changeID, i.contents.lastDataModificationTime
-//@   havoc F:pkg/filesystem/virtual.inMemoryDirectoryEntry.previous F:pkg/filesystem/virtual.inMemoryDirectoryEntry.next MD:* MC
+//@   havoc F:pkg/filesystem/virtual.inMemoryDirectoryEntry.previous F:pkg/filesystem/virtual.inMemoryDirectoryEntry.next MD:* MC G:leaflinks
 //@   ensures counts-only-grow: touches(&i.contents) >= old(touches(&i.contents))
 //@   ensures marked-deleted: i.contents.isDeleted
 
@@ -184,6 +190,7 @@ package virtual
 //@   at call attach#1 assert hard-link-shares-the-one-file: arg2 == name && arg3 == normalizedName && arg4.leaf == leaf && arg4.directory == nil
 //@   ensures failure-modifies-nothing: r1 != StatusOK ==> forall c ref :: touches(c) == 0
 //@   ensures success-is-one-modification: r1 == StatusOK ==> touches(&i.contents) == 1 && r0.After == r0.Before + 1 && r0.After == i.contents.changeID
+//@   ensures the-link-count-of-the-file-grows-exactly-when-the-name-was-added: leaflinks(child) == ite(r1 == StatusOK, 1, 0)
 //@ func (*inMemoryPrepopulatedDirectory).VirtualOpenChild
 //@   props C13
 //@   at call Normalize#1 assert name-normalised: arg1 == name
